@@ -371,6 +371,22 @@ def std_reverse(eng, st, first, last, line):
 # ------------------------------------------------------------------------------------------------
 # Python / pybind11 models
 
+def take_newref(st, r, what, line):
+    st.ghost['newrefs'] = st.ghost.get('newrefs', ()) + (r,)
+    st.ghost['trace'] = st.ghost['trace'] + ((f'new reference from {what}', line),)
+
+
+def release_newref(st, v):
+    r = v.ref if isinstance(v, PyObj) else v
+    refs = list(st.ghost.get('newrefs', ()))
+    for k, x in enumerate(refs):
+        if z3.is_expr(r) and x.eq(r):
+            refs.pop(k)
+            st.ghost['newrefs'] = tuple(refs)
+            return True
+    return False
+
+
 def py_model(eng, st, name, A, n):
     from .symex import Unsupported, as_int, as_bool, refof
     line = n.get('line')
@@ -454,6 +470,8 @@ def py_model(eng, st, name, A, n):
         return [(st, Opaque('str'))]
     if name in ('reinterpret_borrow', 'reinterpret_steal'):
         v = A[0]
+        if name == 'reinterpret_steal':
+            release_newref(st, v)                # the pybind11 object takes the reference over
         if isinstance(v, PyObj):
             return [(st, v)]
         if z3.is_expr(v) and v.sort() == Ref:
@@ -542,6 +560,28 @@ def py_model(eng, st, name, A, n):
         if hook:
             hook(eng, st, d, r, n)
         return [(st, PyObj(r, fresh=True))]
+    if name in ('PyList_GET_SIZE', 'PyTuple_GET_SIZE', 'PyList_Size', 'PyTuple_Size'):
+        # external contract (A-CAPI): the current length, no Python code runs
+        return [(st, pylen(eng, st, P(0), name.startswith('PyList')))]
+    if name in ('PyList_GET_ITEM', 'PyTuple_GET_ITEM'):
+        # external contract (A-CAPI): UNCHECKED borrowed item access - the index must be in range at access time (C16)
+        o, i = P(0), as_int(A[1])
+        eng.oblige(st, 'II', f'{name}:index-in-range-at-access-time', z3.And(0 <= i, i < pylen(eng, st, o, name.startswith('PyList'))), line)
+        return [(st, PyObj(M.py_item(o.ref, i), stable=getattr(o, 'stable', False)))]
+    if name in ('PySequence_List', 'PySequence_Tuple'):
+        # external contract (A-CAPI): list(o) / tuple(o) - iterates o (user code may run); a NEW reference, or NULL with
+        # the error indicator set
+        o = P(0)
+        eng.may_call_python(st, f'{name} (iteration)', line)
+        s_fail = st.clone()
+        s_fail.ghost['pyerr'] = z3.BoolVal(True)
+        r = fresh('new_' + name[11:].lower(), Ref)
+        st.pc.append(z3.And(r != NULL, (M.py_is_list if name.endswith('List') else M.py_is_tuple)(r)))
+        take_newref(st, r, name, line)
+        return [(st, PyObj(r, fresh=True)), (s_fail, PyObj(NULL))]
+    if name in ('Py_DECREF', 'Py_XDECREF') and st.ghost.get('newrefs'):
+        if release_newref(st, A[0]):
+            return [(st, None)]
     if name == 'PyDict_Keys':
         # external contract (A-CAPI): the keys of the dict *storage* as a new list, no Python code runs.  For an exact dict
         # (and defaultdict) that is its iteration order; an OrderedDict keeps its own order, so the caller must exclude it
@@ -551,6 +591,7 @@ def py_model(eng, st, name, A, n):
         eng.oblige(st, 'III', 'PyDict_Keys:never-applied-to-an-OrderedDict-whose-own-order-differs-from-storage-order', ok, line)
         r = fresh('dict_keys', Ref)
         st.pc.append(z3.And(r != NULL, M.py_is_list(r)))
+        take_newref(st, r, name, line)
         return [(st, PyObj(r, fresh=True))]
     if name == 'len' and len(A) == 1 and (isinstance(A[0], PyObj) or (z3.is_expr(A[0]) and A[0].sort() == Ref)):
         # py::len(obj): PyObject_Size - runs obj.__len__ (user code) and raises for objects without a length
@@ -615,6 +656,7 @@ def py_model(eng, st, name, A, n):
         eng.oblige(st, 'III', f'{name}:never-applied-to-an-OrderedDict-whose-own-order-differs-from-storage-order', ok, line)
         r = fresh('dict_' + name[7:].lower(), Ref)
         st.pc.append(z3.And(r != NULL, M.py_is_list(r)))
+        take_newref(st, r, name, line)
         return [(st, PyObj(r, fresh=True))]
     return None
 
